@@ -67,6 +67,13 @@ func main() {
 		rcb, _ := os.ReadFile(base + ".rc")
 		rc := strings.TrimSpace(string(rcb))
 		bz, err := os.ReadFile(base + ".json")
+		if err != nil && rc == "66" {
+			// the race detector ended the shard (GORACE halt_on_error=1 exitcode=66) before any evidence was written
+			if out, _ := os.ReadFile(base + ".out"); strings.Contains(string(out), "WARNING: DATA RACE") {
+				viol = append(viol, ev.Violation{Label: *id + "/data-race", What: "the Go race detector reported a data race while application instances ran concurrently (shard ended by the detector)", Replay: base + ".out"})
+				continue
+			}
+		}
 		if err != nil {
 			inconclusive = append(inconclusive, fmt.Sprintf("shard %d wrote no evidence (rc=%s, see %s.out)", i, rc, base))
 			continue
